@@ -29,6 +29,8 @@ def run(ctx):
     scen += rc.cover_scenarios(ctx, 'OciRegistryCover_broken.cfg', sample=700 if quick else None)
     # and for the universe where the same bytes are stored both as a blob and as a manifest
     scen += rc.cover_scenarios(ctx, 'OciRegistryCover_dual.cfg', sample=2000 if quick else None)
+    # a tagged image with a layer nothing else names and a subject stored beside it: every delete out of those states
+    scen += rc.cover_scenarios(ctx, 'OciRegistryCover_subj.cfg')
     sp = rc.write_scenarios(ctx, scen)
     t = os.path.join(td, 'tlc-imm.ndjson')
     rc.run_reg(ctx, vh, t, stacks='mem', scen=sp)
